@@ -13,6 +13,7 @@ func TestDevDump(t *testing.T) {
 	if os.Getenv("C06_DEV") == "" {
 		t.Skip()
 	}
+	devLog = true
 	c := loadCorpus()
 	reasons := map[string][]string{}
 	skips := map[string]int{}
@@ -29,6 +30,9 @@ func TestDevDump(t *testing.T) {
 		for _, r := range results {
 			if r.openErr != "" {
 				fmt.Println("OPENERR", name, d.file, r.openErr)
+			}
+			for _, l := range r.skipLog {
+				fmt.Println("SKIPAT", l)
 			}
 			for k, v := range r.skips {
 				skips[k] += v
